@@ -1007,4 +1007,215 @@ theorem getDirsResult_inv (g : HGlobal) (P : List ((Name × Name) × HStats)) (p
           simp at hns; subst hns; exact hs
         · simp [hpd] at hget
 
+def htmlStep (g : HGlobal) (r : FileIn) : HGlobal :=
+  if r.shown then getDirsResult g (joinPath r.rel.dropLast) (r.rel.getLastD []) (htmlStats r.cov)
+  else g
+
+theorem htmlGlobal_eq (rs : List FileIn) : htmlGlobal rs = rs.foldl htmlStep ⟨[], .zero⟩ := rfl
+
+theorem shownEntries_cons (r : FileIn) (rs : List FileIn) :
+    shownEntries (r :: rs) = if r.shown then
+      ((joinPath r.rel.dropLast, r.rel.getLastD []), htmlStats r.cov) :: shownEntries rs
+      else shownEntries rs := by
+  unfold shownEntries
+  by_cases h : r.shown <;> simp [h]
+
+theorem htmlGlobal_from (rs : List FileIn) (g : HGlobal) (P : List ((Name × Name) × HStats))
+    (hnd : (P.map (·.1) ++ (shownEntries rs).map (·.1)).Nodup) (h : HInv g P) :
+    HInv (rs.foldl htmlStep g) (P ++ shownEntries rs) := by
+  induction rs generalizing g P with
+  | nil => simpa [shownEntries] using h
+  | cons r rs ih =>
+    rw [List.foldl_cons]
+    rw [shownEntries_cons] at hnd ⊢
+    by_cases hs : r.shown
+    · simp only [hs, if_true] at hnd ⊢
+      have hnew : (joinPath r.rel.dropLast, r.rel.getLastD []) ∉ P.map (·.1) := by
+        intro hin
+        rw [List.nodup_append] at hnd
+        exact hnd.2.2 _ hin _ (by simp) rfl
+      have step := getDirsResult_inv g P _ _ _ (htmlStats_OK r.cov) hnew h
+      have hstep : htmlStep g r = getDirsResult g (joinPath r.rel.dropLast) (r.rel.getLastD [])
+          (htmlStats r.cov) := by simp [htmlStep, hs]
+      rw [hstep]
+      have := ih _ _ (by simpa [List.append_assoc] using hnd) step
+      simpa [List.append_assoc] using this
+    · simp only [hs] at hnd ⊢
+      have hstep : htmlStep g r = g := by simp [htmlStep, hs]
+      rw [hstep]
+      exact ih g P hnd h
+
+/-- distinct (directory, file name) pairs among the shown files -/
+def ShownDistinct (rs : List FileIn) : Prop := ((shownEntries rs).map (·.1)).Nodup
+
+theorem htmlGlobal_inv (rs : List FileIn) (hnd : ShownDistinct rs) :
+    HInv (htmlGlobal rs) (shownEntries rs) := by
+  have h0 : HInv ⟨[], .zero⟩ [] :=
+    ⟨rfl, rfl, by simp, by simp [NodupKeys, keys], by simp, by simp [keys], by simp⟩
+  have := htmlGlobal_from rs ⟨[], .zero⟩ [] (by simpa [ShownDistinct] using hnd) h0
+  simpa [htmlGlobal_eq] using this
+
+theorem html_dirPages_sum (rs : List FileIn) (hnd : ShownDistinct rs) :
+    ∀ dp ∈ (html rs).dirPages, dp.2.stats = sumH (dp.2.rows.map (·.2)) ∧
+      dp.2.stats.OK ∧ ∀ row ∈ dp.2.rows, row.2.OK := by
+  have inv := htmlGlobal_inv rs hnd
+  intro dp hdp
+  simp only [html, List.mem_map] at hdp
+  obtain ⟨nd, hmem, rfl⟩ := hdp
+  obtain ⟨d, ds⟩ := nd
+  have hget := get?_of_mem inv.nodup hmem
+  have hsum := inv.dir d ds hget
+  have hok := inv.ok d ds hget
+  refine ⟨hsum, ?_, hok⟩
+  simp only [dirPage]
+  rw [hsum]
+  apply sumH_OK
+  intro x hx
+  simp only [List.mem_map] at hx
+  obtain ⟨ns, hns, rfl⟩ := hx
+  exact hok ns hns
+
+theorem html_index_sum (rs : List FileIn) (hnd : ShownDistinct rs) :
+    (html rs).index.stats = sumH ((html rs).index.rows.map (·.2)) := by
+  have inv := htmlGlobal_inv rs hnd
+  simp only [html, topPage]
+  cases hg : get? (htmlGlobal rs).dirs [] with
+  | some d => simp only [dirPage]; exact inv.dir [] d hg
+  | none => simp only [globalPage, List.map_map]; exact inv.global
+
+theorem html_global_sum (rs : List FileIn) (hnd : ShownDistinct rs) :
+    (htmlGlobal rs).stats = sumH ((htmlGlobal rs).dirs.map fun nd => nd.2.stats) ∧
+    (htmlGlobal rs).stats = sumH ((shownEntries rs).map (·.2)) :=
+  ⟨(htmlGlobal_inv rs hnd).global, (htmlGlobal_inv rs hnd).globalFiles⟩
+
+/-! directories only come from shown files (no distinctness needed) -/
+theorem getDirsResult_keys (g : HGlobal) (p n : Name) (s : HStats) :
+    ∀ d ∈ keys (getDirsResult g p n s).dirs, d ∈ keys g.dirs ∨ d = p := by
+  intro d hd
+  have : ∀ v, d ∈ keys (set g.dirs p v) → d ∈ keys g.dirs ∨ d = p := by
+    intro v hv
+    rw [keys_set] at hv
+    split at hv
+    · exact Or.inl hv
+    · simp only [List.mem_append, List.mem_singleton] at hv; exact hv
+  unfold getDirsResult at hd
+  cases hg : get? g.dirs p <;> simp only [hg] at hd <;> exact this _ hd
+
+theorem htmlGlobal_keys_from (rs : List FileIn) (g : HGlobal) :
+    ∀ d ∈ keys (rs.foldl htmlStep g).dirs,
+      d ∈ keys g.dirs ∨ ∃ r ∈ rs, r.shown = true ∧ joinPath r.rel.dropLast = d := by
+  induction rs generalizing g with
+  | nil => intro d hd; exact Or.inl hd
+  | cons r rs ih =>
+    intro d hd
+    rw [List.foldl_cons] at hd
+    rcases ih _ d hd with h | ⟨r', hr', hs, hj⟩
+    · by_cases hs : r.shown
+      · have hstep : htmlStep g r = getDirsResult g (joinPath r.rel.dropLast) (r.rel.getLastD [])
+            (htmlStats r.cov) := by simp [htmlStep, hs]
+        rw [hstep] at h
+        rcases getDirsResult_keys _ _ _ _ d h with h | h
+        · exact Or.inl h
+        · exact Or.inr ⟨r, by simp, hs, h.symm⟩
+      · have hstep : htmlStep g r = g := by simp [htmlStep, hs]
+        rw [hstep] at h; exact Or.inl h
+    · exact Or.inr ⟨r', List.mem_cons_of_mem _ hr', hs, hj⟩
+
+/-- when no shown file sits directly in the source root, `index.html` is the global page -/
+theorem html_index_global (rs : List FileIn)
+    (h : ∀ r ∈ rs, r.shown = true → joinPath r.rel.dropLast ≠ []) :
+    (html rs).index = globalPage (htmlGlobal rs) := by
+  have hnone : get? (htmlGlobal rs).dirs [] = none := by
+    rw [get?_eq_none_iff]
+    intro hin
+    rcases htmlGlobal_keys_from rs ⟨[], .zero⟩ [] (by simpa [htmlGlobal_eq] using hin) with h0 | ⟨r, hr, hs, hj⟩
+    · simp [keys] at h0
+    · exact h r hr hs hj
+  simp [html, topPage, hnone]
+
+theorem htmlPercent_props (c t : Nat) (h : c ≤ t) :
+    (htmlPercent c t).Finite ∧ (htmlPercent c t).InPercent ∧
+    (t ≠ 0 → (htmlPercent c t).IsPercent c t) ∧ (t = 0 → htmlPercent c t = ⟨100, 1⟩) := by
+  unfold htmlPercent Rate.Finite Rate.InPercent Rate.IsPercent
+  by_cases ht : t = 0
+  · simp [ht]
+  · refine ⟨by simp [ht], by simp [ht]; omega, fun _ => by simp [ht, Nat.mul_comm], fun h0 => absurd h0 ht⟩
+
+theorem htmlPercentFloor_props (c t : Nat) (h : c ≤ t) :
+    htmlPercentFloor c t ≤ 100 ∧
+    (t ≠ 0 → htmlPercentFloor c t * t ≤ 100 * c ∧ 100 * c < (htmlPercentFloor c t + 1) * t) ∧
+    (t = 0 → htmlPercentFloor c t = 100) := by
+  unfold htmlPercentFloor
+  by_cases ht : t = 0
+  · simp [ht]
+  · have hp : 0 < t := by omega
+    simp only [ht, ne_eq, not_false_eq_true, if_true, true_implies, false_implies, and_true]
+    refine ⟨?_, Nat.div_mul_le_self _ _, ?_⟩
+    · apply Nat.div_le_of_le_mul
+      have := Nat.mul_le_mul_left 100 h
+      rw [Nat.mul_comm t 100]; exact this
+    · have := Nat.lt_mul_div_succ (100 * c) hp
+      rw [Nat.mul_comm t] at this; exact this
+
+/-! ## markdown -/
+
+theorem mdRow_props (c : Cov) :
+    (mdRow c).total = c.lines.length ∧ (mdRow c).covered = countPos c.lines ∧
+    (mdRow c).covered ≤ (mdRow c).total ∧
+    (mdRow c).rate = ⟨100 * countPos c.lines, c.lines.length⟩ := by
+  have h := countZero_add_countPos c.lines
+  have hc : c.lines.length - countZero c.lines = countPos c.lines := by omega
+  simp only [mdRow, hc]
+  exact ⟨trivial, trivial, countPos_le _, trivial⟩
+
+theorem foldl_add_nat {α} (xs : List α) (f : α → Nat) (a : Nat) :
+    xs.foldl (fun a r => a + f r) a = a + (xs.map f).sum := by
+  induction xs generalizing a with
+  | nil => simp
+  | cons x xs ih => simp [ih, Nat.add_assoc]
+
+theorem markdown_totals (rs : List FileIn) :
+    (markdown rs).totalLines = ((markdown rs).rows.map (·.total)).sum ∧
+    (markdown rs).totalCovered = ((markdown rs).rows.map (·.covered)).sum ∧
+    (markdown rs).totalCovered ≤ (markdown rs).totalLines ∧
+    (markdown rs).rate = ⟨100 * (markdown rs).totalCovered, (markdown rs).totalLines⟩ := by
+  simp only [markdown, foldl_add_nat, Nat.zero_add]
+  refine ⟨trivial, trivial, ?_, trivial⟩
+  induction rs with
+  | nil => simp
+  | cons r rs ih =>
+    have := (mdRow_props r.cov).2.2.1
+    simp only [List.map_cons, List.sum_cons] at *
+    omega
+
+theorem markdown_rows (rs : List FileIn) : (markdown rs).rows = rs.map fun r => mdRow r.cov := rfl
+
+/-! ## ade -/
+
+theorem adeFile_file (c : Cov) :
+    (adeFile c).file.covered = countPos c.lines ∧ (adeFile c).file.uncovered = countZero c.lines ∧
+    (adeFile c).file.covered + (adeFile c).file.uncovered = c.lines.length := by
+  have h := countZero_add_countPos c.lines
+  have h1 : (adeFile c).file.covered = countPos c.lines := by
+    simp [adeFile, adePart, countPos, List.countP_eq_length_filter]
+  have h2 : (adeFile c).file.uncovered = countZero c.lines := by
+    simp [adeFile, adePart, countZero, List.countP_eq_length_filter]
+  refine ⟨h1, h2, ?_⟩
+  rw [h1, h2]; omega
+
+theorem adePart_rate (c u : Nat) :
+    (adePart c u).rate.InUnit ∧ (adePart c u).rate.IsRatio c (c + u) ∧
+    (c + u ≠ 0 → (adePart c u).rate.Finite) := by
+  simp [adePart, Rate.InUnit, Rate.IsRatio, Rate.Finite]
+
+/-- every part the ade writer reports is built by `adePart` -/
+theorem adeFile_parts (c : Cov) :
+    (∃ a b, (adeFile c).file = adePart a b) ∧ (∃ a b, (adeFile c).orphan = adePart a b) ∧
+    ∀ m ∈ (adeFile c).methods, ∃ a b, m.2 = adePart a b := by
+  refine ⟨⟨_, _, rfl⟩, ⟨_, _, rfl⟩, ?_⟩
+  intro m hm
+  simp only [adeFile, List.mem_map] at hm
+  obtain ⟨nf, _, rfl⟩ := hm
+  exact ⟨_, _, rfl⟩
+
 end Grcov.Stats
